@@ -379,6 +379,16 @@ theorem s12_only_handoff_runs {α : Type} (s : Flow.S α) (l : Flow.Lbl α) (h12
     (hi : l.internal = true) (hne : Flow.step Generated.seq.reqCap s l ≠ none) : l = .rPublish :=
   Flow.s12_only_publish h12 hi hne
 
+/-- **no livelock, and no other deadlock**: from every reachable state, every execution of the program alone (no new
+lookups, responses, failures) is finite — at most `work` steps, a measure of the requests, hand-offs and lock sections
+still outstanding — and where it stops, unless the transport is stalled, the client is quiescent or in the S12 shape -/
+theorem comes_to_rest_or_s12 {α : Type} (ls0 : List (Flow.Lbl α)) (s : Flow.S α)
+    (h0 : Flow.run Generated.seq.reqCap Flow.init ls0 = some s) :
+    ∃ n, ∀ (ls : List (Flow.Lbl α)) (s' : Flow.S α), (∀ l ∈ ls, l.internal = true) → Flow.run Generated.seq.reqCap s ls = some s' →
+      ls.length ≤ Flow.work n s ∧ (s'.stalled = false → Flow.Stuck Generated.seq.reqCap s' → Flow.Quiescent s' ∨ Flow.S12 Generated.seq.reqCap s') := by
+  obtain ⟨n, hn⟩ := Flow.supp_reachable Flow.supp_init h0
+  exact ⟨n, fun ls s' hall h => Flow.comes_to_rest (by decide) (Flow.reachable h0) hn ls hall h⟩
+
 /-! non-vacuity at capacity 2: the schedule of `s12_deadlock_reachable`, then nothing but the hand-off -/
 example : (Flow.run 2 (Flow.init : Flow.S Unit) (Flow.s12Schedule 2 ())).map
     (fun s => (s.spc, s.cmu, s.queue.length, s.pc 2)) = some (.adoptWait 2, some (.prod 2), 2, .locked ()) := by decide
